@@ -93,6 +93,12 @@ func pickScenario(rng *rand.Rand, focus string) scenario {
 	if focus == "" {
 		focus = fams[rng.Intn(len(fams))]
 	}
+	// "c03cloud": the c03 family with its rarest variant forced (provider on, a reserving statefulset pod whose deletion is lost
+	// in a restart, then two resync passes)
+	forcedCloud := focus == "c03cloud"
+	if forcedCloud {
+		focus = "c03"
+	}
 	sc := scenario{Name: focus, MaxInc: 2, MaxOps: 2, Faults: 1, WStep: 50, WEnv: 25, WStart: 25,
 		Sts: map[string]int32{}, Dp: map[string]int32{}, Pools: map[string]int{}}
 	sts := func(name string, p int) env.PodSpec { return env.PodSpec{Name: name, Kind: "sts", App: "s", Policy: p} }
@@ -140,13 +146,28 @@ func pickScenario(rng *rand.Rand, focus string) scenario {
 		sc.MaxInc, sc.MaxOps = 2, 2
 		sc.Feat = feat("resync", "scale", "apirelease")
 		sc.WEnv = 35
-		if rng.Intn(3) == 0 { // the policy must survive a restart (it is rebuilt from the stored objects)
+		if rng.Intn(3) == 0 || forcedCloud { // the policy must survive a restart (it is rebuilt from the stored objects)
 			sc.Feat["crash"], sc.Crashes = true, 1
+			sc.Cloud = rng.Intn(2) == 0 || forcedCloud // with a provider, resync has to unassign before it may reserve or release
+			if sc.Cloud {
+				sc.Specs[0].Policy = pol(rng, 1, 2)
+				sc.Feat["lostdelete"] = true
+			}
+			if forcedCloud { // the workloads stay as they are: what resync does to the reserved IP is not masked by a deleted app
+				delete(sc.Feat, "scale")
+			}
 		}
 		if rng.Intn(3) == 0 { // an immutable deployment is rolled out, scaled down and its pods go away together
 			sc.Specs[2].Policy, sc.Specs[3].Policy = 1, 1
 			sc.Feat["rollout"] = true
 		}
+	case "syncall": // the periodic pod-ip sync over stale snapshots: running pods that are deleted, finished and re-created meanwhile
+		sc.Cfgs, sc.NodeSub = cfgTight, nodesOneSubnet
+		sc.Specs = []env.PodSpec{sts("s-0", pol(rng, 0, 1, 2)), sts("s-1", pol(rng, 0, 1)), dp("d-a", "d", pol(rng, 0, 1), "")}
+		sc.Sts["s"], sc.Dp["d"] = 2, 1
+		sc.MaxInc, sc.MaxOps, sc.Faults = 3, 3, rng.Intn(2)
+		sc.Feat = feat("resync", "kubelet", "cycle")
+		sc.WStep, sc.WEnv, sc.WStart = 35, 35, 30
 	case "c04": // incarnations, informer lag, duplicated/late events, resync, API release, pod-ip sync
 		sc.Cfgs, sc.NodeSub = cfgOne, nodesOneSubnet
 		sc.Specs = []env.PodSpec{sts("s-0", pol(rng, 0, 1, 2)), dp("d-a", "d", pol(rng, 0, 1), "")}
@@ -224,6 +245,9 @@ func pickScenario(rng *rand.Rand, focus string) scenario {
 		if rng.Intn(2) == 0 { // pairwise disjoint requested ranges
 			sc.Specs = append(sc.Specs, env.PodSpec{Name: "m-0", Kind: "sts", App: "m", Policy: pol(rng, 0, 1), Ranges: [][]string{pickIPs(1 + rng.Intn(2)), pickIPs(1 + rng.Intn(2))}})
 			sc.Sts["m"] = 1
+			if rng.Intn(2) == 0 { // one wide contiguous range across every pool of the first pod subnet (10.0.0.0/24)
+				sc.Specs[len(sc.Specs)-1].Ranges = [][]string{{"ip1", "ip2", "ip3", "ip4", "ip5", "ip6"}}
+			}
 		}
 		if rng.Intn(3) == 0 {
 			sc.Specs = append(sc.Specs, env.PodSpec{Name: "b-0", Kind: "bare", Policy: 0})
@@ -269,6 +293,14 @@ func pickScenario(rng *rand.Rand, focus string) scenario {
 				sc.Specs[i].ArgsAnn = []string{"empty", "null", "{}"}[rng.Intn(3)]
 			}
 		}
+	}
+	// the periodic pod-ip sync (syncPodIPsIntoDB) runs in a third of the scenarios of the ownership / release families; it needs
+	// running pods, hence the kubelet
+	if (focus == "c01" || focus == "c03" || focus == "c04" || focus == "c05") && rng.Intn(3) == 0 {
+		sc.Feat["syncall"], sc.Feat["kubelet"] = true, true
+	}
+	if focus == "syncall" {
+		sc.Feat["syncall"], sc.Feat["kubelet"] = true, true
 	}
 	return sc
 }
